@@ -235,6 +235,17 @@ bool CoreSMTSolver::addOriginalClause_(vec<Lit> && ps, pair<CRef, CRef> & inOutC
     assert(decisionLevel() == 0);
 #ifdef OPENSMT_VERIF
     veriftrace::clause(verifDerivedClause ? "d" : "o", static_cast<void const *>(&theory_handler), ps);
+    if (veriftrace::on() and not verifDerivedClause) {
+        // "(ot <inst> (<literal terms>))": the same original clause with every literal as an SMT-LIB term
+        std::string terms;
+        for (Lit l : ps) {
+            std::string a = theory_handler.getLogic().termToSMT2String(theory_handler.varToTerm(var(l)));
+            terms += (terms.empty() ? "" : " ") + (sign(l) ? "(not " + a + ")" : a);
+        }
+        char buf[32];
+        std::snprintf(buf, sizeof buf, "%p", static_cast<void const *>(&theory_handler));
+        veriftrace::line(std::string("(ot ") + buf + " (" + terms + "))");
+    }
 #endif
     inOutCRefs = {CRef_Undef, CRef_Undef};
     if (!isOK()) { return false; }
